@@ -249,6 +249,8 @@ def corpus_programs():
             line = re.sub(r"\s*//.*$", "", line).strip()
             if line:
                 srcs.append(("spec.md:line", line))
+    import extra_sources
+    srcs += [("verif:extra_sources", x) for x in extra_sources.EXTRA_SOURCES]
     seen, progs = set(), []
     for f, s in srcs:
         if s in seen:
